@@ -18,6 +18,7 @@ for o in ops:
         blocks[-1].append(o)
 def flat(bl):
     return [gen] + [o for b in bl for o in b]
+os.makedirs('/root/scratch', exist_ok=True)
 tmpd = tempfile.mkdtemp(prefix='shrink', dir='/root/scratch')
 def holds(bl):
     f = os.path.join(tmpd, 'c.txt')
